@@ -395,7 +395,7 @@ func c05QRSymbols(c *Ctx) {
 			}
 			return p[:n]
 		}
-		for rep := 0; rep < 20; rep++ {
+		for rep := 0; rep < c.Pick(20, 60); rep++ {
 			f := map[int]byte{}
 			for b := 0; b < q.nBlocks; b++ {
 				for _, k := range pick(b, tb) {
@@ -409,7 +409,7 @@ func c05QRSymbols(c *Ctx) {
 				c.CmpF("qr-faults", fmt.Sprintf("c05 decode %d %s hint=-", m.GetHeight(), cqrBits(m)), out, cqrCmpParsed)
 			}
 		}
-		c.NoteN("qr-full-capacity-sets", 20)
+		c.NoteN("qr-full-capacity-sets", c.Pick(20, 60))
 		// (c) beyond the promise: counted only
 		for rep := 0; rep < 10; rep++ {
 			b := r.Intn(q.nBlocks)
@@ -749,7 +749,7 @@ func c05DataMatrix(c *Ctx) {
 			}
 			return p[:n]
 		}
-		for rep := 0; rep < 20; rep++ {
+		for rep := 0; rep < c.Pick(20, 60); rep++ {
 			f := map[int]byte{}
 			for b := 0; b < d.nBlocks; b++ {
 				for _, k := range pick(b, tb) {
@@ -760,7 +760,7 @@ func c05DataMatrix(c *Ctx) {
 			c.Oracle("dm-faults", ok, "dm-full-capacity:"+key, d.in(c05FaultStr(f)),
 				fmt.Sprintf("%d corrupted codewords in each of %d blocks must be corrected; got %s", tb, d.nBlocks, c05Short(out)))
 		}
-		c.NoteN("dm-full-capacity-sets", 20)
+		c.NoteN("dm-full-capacity-sets", c.Pick(20, 60))
 		for rep := 0; rep < 10; rep++ {
 			b := r.Intn(d.nBlocks)
 			f := map[int]byte{}
